@@ -864,6 +864,10 @@ class Engine:
             self.path_id = n_paths
             outcomes.append(self.run_path(func, contract, prefix))
         self.n_paths = n_paths
+        if not isinstance(contract, LemmaSet) and getattr(self, "n_live_paths", 0) == 0 and any(o[0] in ("return", "raise") for o in outcomes) \
+                and not any(ob.status != "discharged" for ob in self.obs):
+            self.obs.append(Ob("%s.canary.some_path_is_live" % self.top_qual(), "undecided", "z3", 0.0, "V", ("vacuity",),
+                               detail="no completed path has a satisfiable path condition", func=self.top_qual()))
         return outcomes
 
     def run_lemmas(self, ls):
@@ -969,6 +973,7 @@ class Engine:
             if outcome[0] == "return" and contract.script is None:
                 self.oblige("frame.no_store_into_argument_buffers", z3.BoolVal(len(self.frame_writes) == 0), cls="P", tags=("frame",),
                             detail="stores into parameter-reachable buffers on this path: %s" % (self.frame_writes[:3],))
+            refuted_before = any(o.status != "discharged" and o.path == self.path_id for o in self.obs)
             if outcome[0] == "return":
                 for item in self.spec_eval(lambda: contract.ensures(a, outcome[1])):
                     label, goal = item[0], item[1]
@@ -983,6 +988,15 @@ class Engine:
                 if not any(exc_matches(outcome[1], [t]) for t in known):
                     self.oblige("no_unlisted_exception", z3.BoolVal(False), cls="P", tags=("raises",),
                                 detail="unexpected %s: %s" % (outcome[1], outcome[2]))
+            # vacuity canary (DESIGN 2.8): a path that reached the end with every obligation discharged must have a satisfiable
+            # path condition - otherwise "discharged" would mean nothing.  (unknown counts as satisfiable.)
+            if not refuted_before and not any(o.status != "discharged" and o.path == self.path_id for o in self.obs):
+                if self.check() == z3.unsat:
+                    self.obs.append(Ob("%s.canary.path_condition_satisfiable" % self.top_qual(), "undecided", "z3", 0.0, "V", ("vacuity",),
+                                       detail="the path condition at the end of path %d is unsatisfiable: its obligations are vacuous" % self.path_id,
+                                       path=self.path_id, func=self.top_qual()))
+                else:
+                    self.n_live_paths = getattr(self, "n_live_paths", 0) + 1
             return outcome
         except PathEnd:
             return ("end", None)
